@@ -158,6 +158,8 @@ func c14Case(o *Out, kind string, which int, viaYaml bool, wl, bl []string, prob
 		scr = 0
 		if serr != nil {
 			scr = 1
+		} else if len(sreq.InfoHashes) != 2 || sreq.InfoHashes[0] != ih || sreq.InfoHashes[1] != bittorrent.InfoHashFromBytes(other) {
+			scr = 2 // the scrape goes on, but without some of the infohashes it named: blocked in part
 		}
 		same = same && sctx == ctx && len(sreq.InfoHashes) == 2 && sreq.InfoHashes[0] == ih && len(sresp.Files) == 0
 	}
